@@ -358,15 +358,17 @@ theorem decodeAll_of_specFields (n : Nat) (D D' : Hpack.DecState) (fp : Nat) (b 
             simp [List.append_assoc]
     · cases h
 
-/-- **response_headers_intact**: with encoder and the peer's decoder in step, the HEADERS frame the full model writes
-for a handler's response is the only thing it adds to the output; it is on the stream's id, has END_HEADERS, has
-END_STREAM exactly when there is no body, and the field list the peer's decoder reads from it is exactly `:status`
-followed by the handler's fields (names lower-cased) -/
+/-- **response_headers_intact**: with encoder and the peer's decoder in step, the frames of ONE header block are the only
+thing the full model adds to the output for a handler's response: the encoder's block cut by the write loop
+(`cutBlock`, `writeHeaderBlock` with 16384) into a HEADERS frame on the stream's id, with END_STREAM exactly when there is
+no body, and CONTINUATION frames for what does not fit; END_HEADERS is on the last of them, and the field list the peer's
+decoder reads from the whole block (printed on that last frame) is exactly `:status` followed by the handler's fields
+(names lower-cased) -/
 theorem response_headers_intact (r : R) (st : Strm) (resp : Resp) (hasBody : Bool)
     (hs : Hpack.Synced r.s.enc r.s.peerDec) (hf : ∀ f ∈ responseFieldList resp, Hpack.FieldOK f) :
     (responseHeaders r st resp hasBody).out =
-      r.out ++ [.headers st.id (!hasBody) true (encodeFields r.s.enc (responseFields resp)).2.length
-        ((responseFields resp).map (·.1))] := by
+      r.out ++ blockOuts st.id (!hasBody) ((responseFields resp).map (·.1)) false
+        (cutBlock Gen.c_maxDataFrameSize (encodeFields r.s.enc (responseFields resp)).2) := by
   obtain ⟨D', h1, _⟩ := response_block_roundtrip r.s.enc r.s.peerDec resp hs hf
   have hle := specFields_le _ _ _ _ _ _ h1
   have h2 := decodeAll_of_specFields _ _ _ _ _ _ [] ((encodeFields r.s.enc (responseFields resp)).2.length + 1)
@@ -374,17 +376,26 @@ theorem response_headers_intact (r : R) (st : Strm) (resp : Resp) (hasBody : Boo
   simp only [responseHeaders, h2]
   simp [responseFieldList, List.map_map, Function.comp_def]
 
+/-- … and a block of at most 16384 octets is one HEADERS frame with END_HEADERS, as before the repair of F33 -/
+theorem response_headers_intact_small (r : R) (st : Strm) (resp : Resp) (hasBody : Bool)
+    (hs : Hpack.Synced r.s.enc r.s.peerDec) (hf : ∀ f ∈ responseFieldList resp, Hpack.FieldOK f)
+    (hl : (encodeFields r.s.enc (responseFields resp)).2.length ≤ Gen.c_maxDataFrameSize) :
+    (responseHeaders r st resp hasBody).out =
+      r.out ++ [.headers st.id (!hasBody) true (encodeFields r.s.enc (responseFields resp)).2.length
+        ((responseFields resp).map (·.1))] := by
+  rw [response_headers_intact r st resp hasBody hs hf, blockOuts_small _ _ _ _ _ _ hl]
+
 /-- non-vacuity of F: the first response of a connection (status 200, no further fields, no body) — the hypotheses
 hold and the frame is `H(1, END_STREAM, END_HEADERS, :status: 200)` -/
 example : (responseHeaders { s := {} } { uid := 0, id := 1, window := 0 } {} false).out =
     [.headers 1 true true (encodeFields {} (responseFields {})).2.length [(Gen.s_StringStatus, [50, 48, 48])]] := by
   have e : responseFieldList {} = [⟨Gen.s_StringStatus, [50, 48, 48], false⟩] := by decide +kernel
-  have h := response_headers_intact { s := {} } { uid := 0, id := 1, window := 0 } {} false C04.synced_init (by
+  have h := response_headers_intact_small { s := {} } { uid := 0, id := 1, window := 0 } {} false C04.synced_init (by
     intro f hf
     rw [e] at hf
     simp only [List.mem_singleton] at hf
     subst hf
-    exact ⟨by decide, by decide, fun h => by cases h <;> exact ⟨by decide +kernel, by decide +kernel⟩⟩)
+    exact ⟨by decide, by decide, fun h => by cases h <;> exact ⟨by decide +kernel, by decide +kernel⟩⟩) (by decide +kernel)
   have e2 : (responseFields {}).map (·.1) = [(Gen.s_StringStatus, [50, 48, 48])] := by decide +kernel
   rw [e2] at h
   simpa using h
